@@ -217,6 +217,15 @@ def gen_cmp_case(seed, i):
     recs = [["a", "b", "n", "c"]]
     for _ in range(r.randint(2, 7)):
         recs.append([r.choice(["x", "y", "zed"]), r.choice(CMP_CELLS), r.choice(CMP_CELLS), r.choice(["p", "q"])])
+    if r.random() < 0.5 and len(recs) > 2:
+        # after lines on which the operands are present: lines on which one is missing — an empty cell, or a short row (None
+        # against anything is False, and is no error)
+        for j in range(2, len(recs)):
+            k = r.random()
+            if k < 0.25:
+                recs[j][r.choice([1, 2])] = ""
+            elif k < 0.4:
+                recs[j] = recs[j][:r.choice([1, 2])]
     f = r.choice(["above", "below", "gt", "lt", "gte", "lte", "after", "before"])
     left = r.choice(["#n", "#b", "#2"])
     right = r.choice(["#b", "#n", str(r.choice([0, 1, 2, 3, 10, 100, 2000])), '"' + r.choice(["fish", "3", "x"]) + '"'])
@@ -238,6 +247,7 @@ def case_cmp(case):
         path = real_run.write_file("in.csv", case["recs"])
         mode = "" if case["and"] else "~ logic-mode: OR ~ "
         out, _ = real_run.run_single(f"{mode}${path}[{case['scan']}][{case['match']}]", "collect", policy=["collect"])
-        res["spec"] = [{"what": "a comparison of two present cells raised an error (the documented fallback is a comparison as text)",
+        res["spec"] = [{"what": "a comparison of two cells (present, empty or missing) raised an error (the documented fallback is a comparison as text; "
+                                "a missing value compares False)",
                         "errors": out.get("errors"), "raised": out.get("raised")}]
     return res
